@@ -127,6 +127,8 @@ pub struct SeqCfg {
     pub ownership: bool,
     /// record sync points (Flush directly followed by Fsync) with the acknowledged content
     pub record_syncs: bool,
+    /// track growth of the refcount structures / L1 table and tag violations with it
+    pub track_growth: bool,
 }
 
 impl Default for SeqCfg {
@@ -145,6 +147,7 @@ impl Default for SeqCfg {
             need_flush_check: false,
             ownership: false,
             record_syncs: false,
+            track_growth: false,
         }
     }
 }
@@ -445,6 +448,18 @@ pub struct SeqRun {
     /// recorded when an Fsync op directly follows a successful Flush
     pub sync_points: Vec<(u64, Vec<u8>)>,
     pub final_params: Option<DevParams>,
+    pub growth: Growth,
+    /// a cache slice was evicted while a multi-cluster call (concurrent sub-requests) ran
+    pub evicted_in_multi: bool,
+    pub cur_multi: bool,
+    pub cur_evict0: u64,
+}
+
+#[derive(Clone, Debug, Default)]
+pub struct Growth {
+    pub new_refblocks: usize,
+    pub reftable_changed: bool,
+    pub l1_changed: bool,
 }
 
 fn cluster_tags(model: &Model, g: usize) -> Vec<String> {
@@ -497,6 +512,10 @@ pub fn run_seq(case: &SeqCase, cfg: &SeqCfg) -> SeqRun {
         op_events: vec![],
         sync_points: vec![],
         final_params: None,
+        growth: Growth::default(),
+        evicted_in_multi: false,
+        cur_multi: false,
+        cur_evict0: 0,
     };
     let layers = match build_layers(&case.layers) {
         Ok(l) => l,
@@ -519,7 +538,26 @@ pub fn run_seq(case: &SeqCase, cfg: &SeqCfg) -> SeqRun {
     run.model = Model::new(&case.layers, &layers.truths);
     run.truths = layers.truths.clone();
     run.stats.host_len_start = world.file_len(0);
-    if let Err(v) = run_seq_inner(case, cfg, &mut run) {
+    if let Err(mut v) = run_seq_inner(case, cfg, &mut run) {
+        if run.cur_multi && qcow2_rs::cache::verif_evictions() > run.cur_evict0 {
+            run.evicted_in_multi = true;
+        }
+        if run.evicted_in_multi {
+            v.tags.push("hist:eviction_during_concurrency".into());
+        }
+        if cfg.track_growth {
+            // what the failing operation itself was doing is not yet recorded: look at the top
+            // tables' file offsets in the request log as well
+            if run.growth.new_refblocks > 0 {
+                v.tags.push("growth:refblock".into());
+            }
+            if run.growth.reftable_changed {
+                v.tags.push("growth:reftable".into());
+            }
+            if run.growth.l1_changed {
+                v.tags.push("growth:l1".into());
+            }
+        }
         run.violation = Some(v);
     }
     run.stats.host_len_end = world.file_len(0);
@@ -599,9 +637,24 @@ fn run_seq_inner(case: &SeqCase, cfg: &SeqCfg, run: &mut SeqRun) -> Result<(), V
     }
 
     let mut prev_flush_ok = false;
+    let mut growth0: Option<(Option<u64>, usize, Option<u64>, usize, usize)> = None;
+    if cfg.track_growth {
+        if let Some((l1_off, l1, rt_off, rt)) = dev.verif_top_tables() {
+            growth0 = Some((l1_off, l1.len(), rt_off, rt.len(), rt.iter().filter(|e| **e != 0).count()));
+        }
+    }
     for (i, op) in ops.iter().enumerate() {
         let bs = params.bs();
         let ev_start = world.now();
+        // a multi-cluster call runs its per-cluster parts concurrently: evictions during it
+        // fall under the known finding about evictions while several tasks run
+        let multi = match op {
+            Op::Write { off, len, .. } | Op::Read { off, len } => (*off as usize) / cs != (*off as usize + *len - 1) / cs,
+            _ => false,
+        };
+        let evict0 = qcow2_rs::cache::verif_evictions();
+        run.cur_multi = multi;
+        run.cur_evict0 = evict0;
         let this_is_flush = matches!(op, Op::Flush);
         let this_is_fsync = matches!(op, Op::Fsync);
         match op {
@@ -772,8 +825,24 @@ fn run_seq_inner(case: &SeqCase, cfg: &SeqCfg, run: &mut SeqRun) -> Result<(), V
                 run.stats.reopens += 1;
             }
         }
+        if multi && qcow2_rs::cache::verif_evictions() > evict0 {
+            run.evicted_in_multi = true;
+        }
         run.stats.ops_done = i + 1;
         run.op_events.push((ev_start, world.now()));
+        if cfg.track_growth {
+            if let Some((l1_off, l1, rt_off, rt)) = dev.verif_top_tables() {
+                let cur = (l1_off, l1.len(), rt_off, rt.len(), rt.iter().filter(|e| **e != 0).count());
+                match &growth0 {
+                    None => growth0 = Some(cur),
+                    Some(g0) => {
+                        run.growth.new_refblocks = cur.4.saturating_sub(g0.4);
+                        run.growth.reftable_changed = cur.2 != g0.2 || cur.3 != g0.3;
+                        run.growth.l1_changed = cur.0 != g0.0 || cur.1 != g0.1;
+                    }
+                }
+            }
+        }
         if cfg.record_syncs && this_is_fsync && prev_flush_ok {
             run.sync_points.push((world.now(), run.model.disk.clone()));
         }
